@@ -1119,7 +1119,7 @@ def run(chk):
     ]
     chk.not_decided += ["which line results from every character stream (editing is decided only as K1/K2 clauses)",
                         "tokenisation of the lines the property leaves open (see assumptions)"]
-    for cfg in ("default", "nofibre") + (("uchar", "nofibre-uchar") if chk.tier == "thorough" else ()):
+    for cfg in ("default", "nofibre"):     # (unsigned char etc.: build variants of core.run_check)
         m = build.load_unit(UNIT, cfg)
         chk.note_unit(m)
         L, scr_lo, scr_hi, total = layout(m)
